@@ -47,12 +47,12 @@ fn configs(tier: Tier) -> Vec<SysCfg> {
     };
     // old8-batch4: the lowest stored header is exactly the newest out-of-window one
     let mut v = vec![base.clone(), SysCfg { name: "old8-batch4", old_upto: 8, ..base.clone() }];
-    // real-time configuration (the wall clock is not seamed): 2 s sampling window, every header
-    // 1.5 s inside it when an execution starts, environment event "1.7 s of REAL time pass"
+    // real-time configuration (the wall clock is not seamed): 4 s sampling window, every header
+    // 3 s inside it when an execution starts, environment event "3.2 s of REAL time pass"
     // (offered once, while a range request is outstanding), after which every header is outside
     // the window; a forked answer / a reconnect then makes the syncer plan the same batch again
     v.push(SysCfg {
-        name: "realtime-window2s-batch4",
+        name: "realtime-window4s-batch4",
         old_upto: 0,
         menu: Menu {
             prefix: false,
@@ -67,9 +67,9 @@ fn configs(tier: Tier) -> Vec<SysCfg> {
             clock: false,
         },
         aging: Some(Aging {
-            window: Duration::from_secs(2),
-            inside: Duration::from_millis(1500),
-            sleep: Duration::from_millis(1700),
+            window: Duration::from_secs(4),
+            inside: Duration::from_millis(3000),
+            sleep: Duration::from_millis(3200),
         }),
         ..base.clone()
     });
@@ -114,13 +114,13 @@ fn main() {
         &ctx,
         rep,
         Spec {
-            rule: "E3 envdfs on the real Syncer+InMemoryStore+mocked P2p (paused clock): all environment choice sequences with <= 3 (quick) / <= 4 (thorough) non-default choices, default = honest full answer to the oldest request / reconnect / run init timers / stop when idle; menu per step = {answer: honest, all-but-last prefix, first only, header-ex error} x {header-sub next head, skip one} x {prune any stored height older than the sampling window, as an event at quiescence AND as a choice point right before each get_stored_header_ranges / get_pruned_ranges / get_by_height / insert call the syncer makes} x {disconnect, reconnect} x {61 s pass}; real-time config realtime-window2s-batch4 (2 s window, headers 1.5 s inside it at execution start, menu {honest, fork-B answer, disconnect, 1.7 s of REAL time pass [once, while a range request is outstanding]}) at <= 2 (quick) / <= 3 (thorough) deviations; configs: old6-batch4 (heights 1..6 old, head 16, batch 4) at the full bound, old8-batch4 at bound-1 [+ old9-batch3, old6-batch4-prefilled-5-8 at bound-1 in thorough]; horizon 40 default-only events after the last deviation, 60 events absolute; an evaluation = one complete execution, a transition = one environment event followed by the oracles; states = distinct property-level observation traces",
+            rule: "E3 envdfs on the real Syncer+InMemoryStore+mocked P2p (paused clock): all environment choice sequences with <= 3 (quick) / <= 4 (thorough) non-default choices, default = honest full answer to the oldest request / reconnect / run init timers / stop when idle; menu per step = {answer: honest, all-but-last prefix, first only, header-ex error} x {header-sub next head, skip one} x {prune any stored height older than the sampling window, as an event at quiescence AND as a choice point right before each get_stored_header_ranges / get_pruned_ranges / get_by_height / insert call the syncer makes} x {disconnect, reconnect} x {61 s pass}; real-time config realtime-window4s-batch4 (4 s window, headers 3 s inside it at execution start, menu {honest, fork-B answer, disconnect, 3.2 s of REAL time pass [once, while a range request is outstanding]}) at <= 2 (quick) / <= 3 (thorough) deviations; configs: old6-batch4 (heights 1..6 old, head 16, batch 4) at the full bound, old8-batch4 at bound-1 [+ old9-batch3, old6-batch4-prefilled-5-8 at bound-1 in thorough]; horizon 40 default-only events after the last deviation, 60 events absolute; an evaluation = one complete execution, a transition = one environment event followed by the oracles; states = distinct property-level observation traces",
             assumptions: &[
                 "Time::now() is not seamed: header times are >= 2 h away from the sampling-window edge, so wall-clock progress during the run cannot change a verdict; the exact boundary instant is not checked",
                 "the mock sits behind the header-ex client: answers are contiguous runs of individually valid headers starting at the requested height",
                 "pruning is modelled as Store::remove_height on any stored height older than the sampling window (what Pruner::get_next_prunable_batch may select, edges included); in-window heights are never pruned",
                 "one environment event at a time with a settle in between (select! start-branch randomness cannot reorder externally caused events)",
-                "realtime-window2s-batch4 depends on the real clock: 'older than the window' is computed there from Time::now() taken BEFORE the environment event that triggered the planning was injected, so a stalled machine can only make headers older (the syncer then stops earlier; coverage of that config may vary) but cannot produce a false alarm; a header that leaves the window between that instant and the syncer's decision gets no verdict",
+                "realtime-window4s-batch4 depends on the real clock (an execution attempt whose pre-sleep part took more than 2.4 s of real time is thrown away and repeated, 8 stalled attempts in a row are a machinery error): 'older than the window' is computed there from Time::now() taken BEFORE the environment event that triggered the planning was injected, so a stalled machine can only make headers older (the syncer then stops earlier; coverage of that config may vary) but cannot produce a false alarm; a header that leaves the window between that instant and the syncer's decision gets no verdict",
                 "a repeated batch is only judged when the previous attempt was answered completely with honest headers and was not cancelled",
             ],
             required_classes: &[
